@@ -157,8 +157,6 @@ def _check_domain(dom, terminals, ufl):
         raise R.Unsupported(f"cell {cellname}")
     if any(t.ufl_function_space().ufl_domain() != dom for t in terminals):
         raise R.Unsupported("several domains")
-    if any(getattr(t.ufl_element(), "has_custom_quadrature", False) for t in terminals):
-        raise R.Unsupported("quadrature element")
     return cellname
 
 
@@ -266,7 +264,14 @@ def _kernel(kn, fd2_cache, seed, run_kernel, ufl):
             for integral in integrals:
                 md = dict(integral.metadata())
                 md["estimated_polynomial_degree"] = int(np.max(md["estimated_polynomial_degree"])) + shift
-                els = [x.ufl_element() for x in list(args) + coeffs]
+                # an integral containing a quadrature element is integrated with exactly that element's points and weights
+                qels = [e for e in ufl.algorithms.extract_elements(integral) if getattr(e, "has_custom_quadrature", False)]
+                if qels:
+                    if it != "cell":
+                        raise R.Unsupported("quadrature element in a facet integral")
+                    qp, qw = qels[0].custom_quadrature()
+                    md.update(quadrature_rule="custom", quadrature_points=qp, quadrature_weights=qw)
+                els = [x.ufl_element() for x in args]  # the polyset (macro or standard rule) follows the ARGUMENT elements, as documented in representation.py
                 if it == "cell":
                     if sumfact and cellname in ("quadrilateral", "hexahedron") and md.get("quadrature_rule", "default") == "default":
                         # sum factorisation integrates with the tensor product of the 1D rule of the same degree
